@@ -402,7 +402,7 @@ fn run_with(args: &Args, judge: Judge, silent: bool, rule: &str) -> Report {
     rep.count("log_inexistant_reverse_dependency", crate::logcap::inexistant_rdeps());
     rep.count("log_error_reloading", crate::logcap::reload_errors());
     rep.floor("passes_with_2plus_reloads", multi_total, if miri { 1 } else { args.n(100, 2_500) as u64 });
-    rep.floor("edit_kinds", rep.n_seen("edit_kinds"), if miri { 3 } else { 9 });
+    rep.floor_set("edit_kinds", if miri { 3 } else { 9 });
     rep.floor("histories_with_diamond", rep.get("histories_with_diamond"), if miri { 0 } else { 1 });
     rep
 }
